@@ -4,6 +4,8 @@ import (
 	"encoding/hex"
 	"fmt"
 	"math/rand"
+
+	"kvharness/internal/gen"
 )
 
 // op `tok`: the bytes this driver's encoder produces for an (uncompressed) layout, cut at a random byte, are handed
@@ -12,6 +14,13 @@ import (
 // record fields recomputed from the bytes, sizes — with the token stream of the layout text.  It ties the encoder
 // used for every other op to the formal format description.
 func tokCases(r *rand.Rand, thorough bool) {
+	// op `pullfuzz`: evaluated entirely inside the oracle — the statement-by-statement pull model of the decoder
+	// (Model/PullReader.lean) against the token machine (Model/MessageSetReader.lean) on random token streams
+	fz := 20000
+	if thorough {
+		fz = 150000
+	}
+	emit(fmt.Sprintf("pullfuzz seed=%d n=%d", gen.Seed(), fz), "mismatches=0")
 	n := 60
 	if thorough {
 		n = 600
